@@ -315,27 +315,16 @@ def run(ctx):
                detail={"written": sorted(x.decode() if x else "?" for x in wnames), "parsed": sorted(x.decode() for x in rnames if x)})
 
     # ---- C09.d escaping ---------------------------------------------------------------------
-    rb = f.body("xml::encode::TextEscape::replace_char")
-    if rb is None:
+    rep = escape_table(f)
+    if rep["body"] is None:
         ctx.missing("R-CLS", "TextEscape::replace_char", "xml::encode::TextEscape::replace_char")
     else:
+        rb = rep["body"]
         ctx.saw_fn(rb.name)
-        paths, it, err = K.run_absint(f, rb.name)
-        classes = {"Attr": set(), "Pcdata": set()}
-        okp = paths is not None
-        for p in (paths or []):
-            kind = [c[0].split(" is ")[1] for c in p.conds if c[0].startswith("self is ")]
-            if not kind or "ch" not in p.zone.syms:
-                if outcome_str(p.outcome) != "return None":
-                    okp = False
-                continue
-            lo, hi = p.zone.bounds("ch")
-            if outcome_str(p.outcome).startswith("return Some("):
-                classes[kind[0]].update(range(int(lo), int(hi) + 1))
-        ctx.ob("R-CLS", "replace_char:Attr", okp and classes["Attr"] == set(b"<>\"'&"),
-               "in attribute values exactly < > \" ' & are replaced", where=rb.loc, detail=absint.fmt_class(classes["Attr"]))
-        ctx.ob("R-CLS", "replace_char:Pcdata", okp and classes["Pcdata"] == set(b"<&"),
-               "in character data exactly < & are replaced", where=rb.loc, detail=absint.fmt_class(classes["Pcdata"]))
+        for mode, want, text in (("Attr", b"<>\"'&", "in attribute values exactly < > \" ' & are replaced"),
+                                 ("Pcdata", b"<&", "in character data exactly < & are replaced")):
+            ok, det = escape_class_ok(rep, mode, want)
+            ctx.ob("R-CLS", "replace_char:" + mode, ok, text + " (each by a reference to itself)", where=rb.loc, detail=det)
 
     # ---- C09.e origin and delta-chain checks --------------------------------------------------
     hb = f.body("rrdp::NotificationFile::has_matching_origins")
@@ -838,6 +827,26 @@ def _takes_reader(f, cm, callee):
     return any(i.startswith("&mut ") and (cm["adt"] + "<" in i or cm["adt"] == i[5:] or D + "Reader<" in i) for i in r.get("inputs", ()))
 
 
+def _leaf_names(body, s, t, depth=0):
+    """names of the parameters / captures / multiply-defined locals a term is made of.  A reference local that is only
+    ever written *through* (`(*p).f = v` is not a definition of `p`) is followed to its one definition."""
+    out = set()
+    for x in walk(strip_deep(t)):
+        if x[0] in ("param", "upvar"):
+            out.add(x[1])
+        elif x[0] == "var":
+            full = [d for d in body.defs().get(x[2], ()) if d[2] in ("assign", "call")]
+            thru = [d for d in body.defs().get(x[2], ()) if d[2] == "partial"]
+            if len(full) == 1 and depth < 6 and body.local_ty(x[2]).startswith("&") and \
+                    all(d[1] != "term" and d[3]["s"] == "assign" and d[3]["pl"]["p"] and d[3]["pl"]["p"][0][0] == "d" for d in thru):
+                d = full[0]
+                v = s.rvalue(d[3]["rv"], 1) if d[2] == "assign" else s.call(d[3], d[0], 1)
+                out |= _leaf_names(body, s, v, depth + 1)
+            else:
+                out.add(x[1])
+    return out
+
+
 def _counter_effects(f, cm, body, depth=4, seen=()):
     """(writes, fields written on every path to a return) of `body` on the two counters of a counting reader that
     already exists (reached through a reference), in the vocabulary of `body`'s parameters.  Calls into xml::decode
@@ -851,7 +860,7 @@ def _counter_effects(f, cm, body, depth=4, seen=()):
         val = K.fold_consts(strip_deep(val), consts)
         base = strip_deep(base)
         writes.append({"field": fld, "value": val, "bb": bb, "via": via,
-                       "base_roots": {x[1] for x in walk(base) if x[0] in ("param", "upvar", "var")},
+                       "base_roots": _leaf_names(body, s, base),
                        "reset": not _reads_field(cm, val, fld)})
         if certain:
             blocks_of.setdefault(fld, set()).add(bb)
@@ -908,7 +917,7 @@ def _counter_effects(f, cm, body, depth=4, seen=()):
                 base_roots = set()
                 for r_ in w["base_roots"]:
                     mt = mapping.get(r_)
-                    base_roots |= {x[1] for x in walk(strip_deep(mt)) if x[0] in ("param", "upvar", "var")} if mt else {r_}
+                    base_roots |= _leaf_names(body, s, mt) if mt else {r_}
                 val = K.fold_consts(strip_deep(K._subst(w["value"], mapping)), consts)
                 writes.append({"field": w["field"], "value": val, "bb": bi, "via": short(callee) + "←" + w["via"],
                                "base_roots": base_roots, "reset": w["reset"]})
@@ -1002,6 +1011,136 @@ def _is_counter_over_param(f, cm, c):
         r = f.fns.get((t[3] or {}).get("res") or t[1]) or {}
         return (r.get("output") or "").startswith(cm["adt"]) and over
     return False
+
+
+# ---------------------------------------------------------------------------------------------
+# C09.d / C11.b: the escaping table of xml::encode, as a function (mode, byte) -> replacement
+#
+# The table is read off the abstract interpretation of the replacement function as a total map over
+# {variants of TextEscape} × {0..255}: a path that does not look at the mode speaks for every mode, a path that does not
+# look at the byte for every byte — `match self { Attr => match ch {..}, .. }`, `match (self, ch)`, `match ch { b'>' if
+# attr => .. }`, if-chains, `matches!`, helpers per mode are the same table.  The function is found by name and, failing
+# that, by what it is: the function of xml::encode from an escape mode and a byte to an optional replacement text.
+
+_ENTITY = {0x3c: b"lt", 0x3e: b"gt", 0x22: b"quot", 0x27: b"apos", 0x26: b"amp"}
+
+
+def _is_reference_to(text, byte):
+    """`text` (bytes) is an XML reference that a parser resolves to `byte`: named, decimal or hexadecimal."""
+    if _ENTITY.get(byte) is not None and text == b"&" + _ENTITY[byte] + b";":
+        return True
+    m = re.match(rb"^&#(?:(\d+)|[xX]([0-9a-fA-F]+));$", text)
+    if not m:
+        return False
+    return (int(m.group(1)) if m.group(1) else int(m.group(2), 16)) == byte
+
+
+def _unrender_bytes(txt):
+    """bytes of a rendered byte-string literal b'...'."""
+    import ast
+    try:
+        v = ast.literal_eval(txt)
+        return v if isinstance(v, bytes) else None
+    except Exception:
+        return None
+
+
+_OPT = r"(?:None|Some\(b'(?:[^'\\]|\\.)*'\))"
+
+
+def _simplify_option(o):
+    """`a.or(b)` of two known options is a known option (the interpreter has no summary for Option::or)."""
+    for _ in range(8):
+        o2 = re.sub(r"Option::or\(None, (%s)\)" % _OPT, r"\1", o)
+        o2 = re.sub(r"Option::or\((Some\(b'(?:[^'\\]|\\.)*'\)), %s\)" % _OPT, r"\1", o2)
+        if o2 == o:
+            break
+        o = o2
+    return o
+
+
+def escape_table(f):
+    ENUM = "xml::encode::TextEscape"
+    out = {"body": None, "table": {}, "problems": [], "modes": []}
+    adt = f.adts.get(ENUM)
+    modes = [v["name"] for v in adt["variants"]] if adt and adt.get("variants") else ["Attr", "Pcdata"]
+    out["modes"] = modes
+    rb = f.body(ENUM + "::replace_char")
+
+    def unref(t):
+        return re.sub(r"^&(?:'\w+ )?(?:mut )?", "", t)
+    if rb is None:
+        cands = []
+        for n, r in f.fns.items():
+            if not r.get("has_body") or not n.startswith("xml::encode::") or n not in f.bodies:
+                continue
+            ins = [unref(i) for i in r.get("inputs", ())]
+            if sorted(ins) == sorted([ENUM, "u8"]) and re.match(r"^(std|core)::option::Option<&", r.get("output") or ""):
+                cands.append(n)
+        if len(cands) == 1:
+            rb = f.body(cands[0])
+    if rb is None:
+        return out
+    out["body"] = rb
+    mode_p = ch_p = None
+    for i in range(1, rb.arg_count + 1):
+        ty = unref(rb.local_ty(i))
+        if ty == ENUM:
+            mode_p = rb.local_name(i) or "_%d" % i
+        elif ty == "u8":
+            ch_p = rb.local_name(i) or "_%d" % i
+    if mode_p is None or ch_p is None:
+        out["problems"].append("parameters are not (escape mode, byte)")
+        return out
+    paths, it, err = K.run_absint(f, rb.name, inline=lambda n: n in f.bodies and n.startswith("xml::encode::") and
+                                  not (f.fns.get(n) or {}).get("exported"))
+    if paths is None:
+        out["problems"].append("cannot establish: %s" % err)
+        return out
+    out["problems"] += list(it.imprecise)
+    table = {}
+    for p in paths:
+        allowed = set(modes)
+        for text, truth in p.conds:
+            m = re.match(r"^(.+) is (\w+)$", text)
+            if m and m.group(1) == mode_p and m.group(2) in modes:
+                allowed = (allowed & {m.group(2)}) if truth else (allowed - {m.group(2)})
+            else:
+                out["problems"].append("condition not understood: %s" % (text,))
+        lo, hi = (0, 255)
+        chsym = [sname for sname in p.zone.syms if sname == ch_p or sname == "*" + ch_p]
+        if chsym:
+            lo, hi = p.zone.bounds(chsym[0])
+            lo, hi = max(0, int(lo)), min(255, int(hi))
+        o = _simplify_option(outcome_str(p.outcome))
+        if o == "return None":
+            val = None
+        else:
+            m = re.match(r"^return Some\((b'.*'|b\".*\")\)$", o)
+            val = _unrender_bytes(m.group(1)) if m else None
+            if val is None:
+                out["problems"].append("result not a literal: %s" % o[:80])
+                val = b"?"
+        for md in allowed:
+            for c in range(lo, hi + 1):
+                if (md, c) in table and table[(md, c)] != val:
+                    out["problems"].append("two results for (%s, %d)" % (md, c))
+                table[(md, c)] = val
+    for md in modes:
+        miss = [c for c in range(256) if (md, c) not in table]
+        if miss:
+            out["problems"].append("%s: no result for %d byte values" % (md, len(miss)))
+    out["table"] = table
+    return out
+
+
+def escape_class_ok(rep, mode, want):
+    """(ok, detail): in `mode` exactly the bytes `want` are replaced, each by a reference to itself."""
+    cls = {c for (md, c), v in rep["table"].items() if md == mode and v is not None}
+    wrong = {chr(c): rep["table"][(mode, c)].decode(errors="replace") for c in sorted(cls)
+             if not _is_reference_to(rep["table"][(mode, c)], c)}
+    ok = not rep["problems"] and mode in rep["modes"] and cls == set(want) and not wrong
+    return ok, {"replaced": absint.fmt_class(cls), "wrong_replacement": wrong or None, "problems": rep["problems"][:4] or None}
 
 
 def _with_private_helpers(f, names, mod="rrdp::"):
